@@ -1,7 +1,7 @@
 (* Entry.v — dispatch from a harness case (an S-expression) to a model function; result as an S-expression. *)
 From Coq Require Import List Arith NArith ZArith Bool Strings.Byte.
 From Coq Require Strings.String.
-From DX Require Import Bytes Sx Res Codec Text.
+From DX Require Import Bytes Sx Res Codec Text Json Sections Header Stream Reader Writer Wire.
 Import ListNotations.
 Import String.StringSyntax.
 Local Open Scope string_scope.
@@ -12,7 +12,7 @@ Definition exn_name (e : exn) : String.string :=
   | EAssertion => "AssertionError" | ELookup => "LookupError" | EType => "TypeError"
   | EUnicodeEncode => "UnicodeEncodeError" | EUnicodeDecode => "UnicodeDecodeError" | EValue => "ValueError"
   | EKey => "KeyError" | EOverflow => "OverflowError" | EAttribute => "AttributeError"
-  | EUnboundLocal => "UnboundLocalError" | ERecursion => "RecursionError"
+  | EUnboundLocal => "UnboundLocalError" | ERecursion => "RecursionError" | EIndex => "IndexError"
   | ELibContent => "DiffXContentError" | ELibOrder => "DiffXSectionOrderError"
   | ELibOptionValue => "DiffXOptionValueError" | ELibChoice => "DiffXOptionValueChoiceError"
   | ELibUnknownOption => "DiffXUnknownOptionError"
@@ -75,8 +75,85 @@ Definition run_guess (args : list sx) : sx :=
   | _ => bad_case "guess arity"
   end.
 
+(* (read chunk #data oracle) *)
+Definition sx_of_read_result (r : list record * term) : sx :=
+  Li [sx_of_list sx_of_record (fst r); sx_of_term (snd r) sx_of_exn].
+Definition run_read (args : list sx) : sx :=
+  match args with
+  | [c; d; o] =>
+      match sx_nat c, sx_bytes d, sx_oracle o with
+      | Some c, Some d, Some o => sx_of_read_result (read_all o c d)
+      | _, _, _ => bad_case "read args"
+      end
+  | _ => bad_case "read arity"
+  end.
+
+(* (header (#valid ...) #line) *)
+Definition run_header (args : list sx) : sx :=
+  match args with
+  | [v; h] =>
+      match sx_list sx_bytes v, sx_bytes h with
+      | Some v, Some h =>
+          match parse_header v h with
+          | HOk level name id opts => tagged "ok" [sx_of_nat level; Hex name; Hex id; sx_of_options opts]
+          | HErr col => tagged "parse" [sx_of_option sx_of_nat col]
+          end
+      | _, _ => bad_case "header args"
+      end
+  | _ => bad_case "header arity"
+  end.
+
+(* (write enc version (call ...)) *)
+Definition sx_of_status (r : res unit * nat) : sx :=
+  match fst r with
+  | Ok _ => Li [sym "ok"; sx_of_nat (snd r)]
+  | Err e => Li [sx_of_exn e; sx_of_nat (snd r)]
+  end.
+Definition run_write (args : list sx) : sx :=
+  match args with
+  | [e; v; cs] =>
+      match sx_wv e, sx_wv v, sx_list sx_call cs with
+      | Some e, Some v, Some cs =>
+          let (s0, r0) := writer_init e v in
+          match r0 with
+          | Err ex => tagged "init" [sx_of_exn ex]
+          | Ok _ =>
+              let (rs, f) := run_calls s0 cs in
+              Li [sym "ok"; sx_of_nat (length (w_out s0)); sx_of_list sx_of_status rs; Hex (w_out f)]
+          end
+      | _, _, _ => bad_case "write args"
+      end
+  | _ => bad_case "write arity"
+  end.
+
+(* (write_read enc version (call ...) chunk oracle): the writer, then the reader on what the model writer produced *)
+Definition run_write_read (args : list sx) : sx :=
+  match args with
+  | [e; v; cs; c; o] =>
+      match sx_wv e, sx_wv v, sx_list sx_call cs, sx_nat c, sx_oracle o with
+      | Some e, Some v, Some cs, Some c, Some o =>
+          let (s0, r0) := writer_init e v in
+          match r0 with
+          | Err ex => tagged "init" [sx_of_exn ex]
+          | Ok _ =>
+              let (rs, f) := run_calls s0 cs in
+              Li [Li [sym "ok"; sx_of_nat (length (w_out s0)); sx_of_list sx_of_status rs; Hex (w_out f)];
+                  sx_of_read_result (read_all o c (w_out f))]
+          end
+      | _, _, _, _, _ => bad_case "write_read args"
+      end
+  | _ => bad_case "write_read arity"
+  end.
+
+Definition run_json_dump (args : list sx) : sx :=
+  match args with
+  | [j] => match sx_json j with Some j => sx_of_res sx_of_bytes (json_dump j) | None => bad_case "json" end
+  | _ => bad_case "json_dump arity"
+  end.
+
 Definition table : list (String.string * (list sx -> sx)) :=
-  [ ("split_lines", run_split_lines); ("codec", run_codec); ("newline_for", run_newline_for); ("guess", run_guess) ].
+  [ ("split_lines", run_split_lines); ("codec", run_codec); ("newline_for", run_newline_for); ("guess", run_guess);
+    ("read", run_read); ("header", run_header); ("write", run_write); ("write_read", run_write_read); ("json_dump", run_json_dump) ].
 
 Fixpoint dispatch (t : list (String.string * (list sx -> sx))) (name : bytes) (args : list sx) : sx :=
   match t with
